@@ -248,6 +248,46 @@ fn check_inbound_burst(rep: &mut Report, nsmall: usize, small_len: usize, total:
     }
 }
 
+/// Outbound at the production limit: a batch of small calls is enqueued until `target` bytes are pending (far below the
+/// limit, far above any power of two a growth policy may stumble over), every one of them must be accepted; one flush
+/// then hands all of them to the transport in one write. (A single message of that size cannot be tried: encoding
+/// restarts at every growth step.)
+fn check_outbound_batch(rep: &mut Report, target: usize, limit: usize) {
+    rep.eval(0xba7c4 ^ target as u64);
+    rep.count("outbound_batches_at_the_production_limit");
+    let replay = json!({"monitor": "c17", "dir": "out-batch", "target": target, "limit": limit});
+    let r = vnet::catch(|| -> Result<(), (String, String)> {
+        let wire = new_wire(0);
+        let mut conn = Connection::new(VSocket(wire.clone()));
+        let f = filler(2000);
+        let mut one = serde_json::to_vec(&f).unwrap();
+        one.push(0);
+        let mut n = 0usize;
+        while (n + 1) * one.len() < target {
+            if let Err(e) = conn.enqueue_call(&f) {
+                return Err(("C17/outbound-message-below-limit-refused".into(), format!("call #{n} of {} bytes refused with {e:?} while {} bytes were pending (limit {limit})", one.len(), n * one.len())));
+            }
+            n += 1;
+        }
+        vnet::block_on(conn.flush(), 4).ok_or_else(|| ("C17/panic-while-sending".to_string(), "flush stalled".to_string()))?.map_err(|e| ("C17/outbound-message-below-limit-refused".to_string(), format!("flush of {} pending bytes: {e:?}", n * one.len())))?;
+        let w = wire.borrow();
+        if w.writes.len() != 1 || w.writes[0].len() != n * one.len() {
+            return Err(("C17/accepted-send-did-not-issue-one-write".into(), format!("{} writes of {:?} bytes for {n} pending calls of {} bytes", w.writes.len(), w.writes.iter().map(|x| x.len()).collect::<Vec<_>>(), one.len())));
+        }
+        for k in (0..n).step_by(997).chain([n - 1]) {
+            if w.writes[0][k * one.len()..(k + 1) * one.len()] != one[..] {
+                return Err(("C17/outbound-frame-corrupted".into(), format!("call #{k} of the batch differs from what was submitted")));
+            }
+        }
+        Ok(())
+    });
+    match r {
+        Err(p) => rep.violation("C17/panic-while-sending", format!("{p}; batch of {target} bytes"), replay),
+        Ok(Err((sig, d))) => rep.violation(&sig, d, replay),
+        Ok(Ok(())) => rep.count("outbound_batches_ok"),
+    }
+}
+
 /// A connection with a past: `first` messages (frame lengths) are received and consumed one after the other,
 /// then a frame of `total` wire bytes arrives. What the earlier traffic left behind (a grown, shrunk or
 /// re-used buffer) must not move the limit.
@@ -586,6 +626,9 @@ pub fn run(cfg: &Cfg) -> Report {
         }
         if cfg.mine(5) {
             check_inbound_burst(&mut rep, 3, 100, limit + 2 * step, false, &[1 << 20], limit, step, label);
+        }
+        if cfg.mine(7) {
+            check_outbound_batch(&mut rep, if cfg.thorough { limit - 4096 } else { limit / 100 * 72 }, limit);
         }
         if cfg.mine(6) && cfg.thorough {
             check_inbound_burst(&mut rep, 1, 300, limit + 2 * step, true, &[65536, 4096], limit, step, label);
